@@ -16,6 +16,7 @@ ASSUMPTIONS = [
 
 GROUP_FAULTS: Dict[str, str] = {}  # group class name -> kind ("calc" | "validate_input" | "validate_output")
 BOUND_S = 30.0
+HANG_CAP = 3
 
 
 def _before_calc(cls: Any, data: Any, features: Any) -> None:
@@ -126,7 +127,12 @@ def run(ctx: Ctx) -> None:
     nplans = ctx.budget(14, 300)
     lean_reqs: List[Dict[str, Any]] = []
     metas: List[Any] = []
+    hangs = 0
     for k in range(nplans):
+        if hangs >= HANG_CAP:
+            # every reproducible hang costs attempts x BOUND_S; a few of them decide the property, more only burn the time limit
+            ctx.note(f"fault enumeration stopped after {hangs} reproducible hangs")
+            break
         r = ctx.rng.random()
         if r < 0.55:
             spec = S.gen_spec(ctx.rng, max_feats=5, frameworks=("pa",), allow_options=False)
@@ -172,6 +178,8 @@ def run(ctx: Ctx) -> None:
             if ctx.quick:
                 kinds = ctx.rng.sample(kinds, min(2, len(kinds)))
             for kind in kinds:
+                if hangs >= HANG_CAP:
+                    break
                 for mode in ["sync", "thread"] + (["mp"] if ctx.rng.random() < (0.12 if ctx.quick else 0.3) else []):
                     if mode != "sync" and not mode_ok(mode):
                         continue
@@ -203,6 +211,7 @@ def run(ctx: Ctx) -> None:
                         case = {"plan": S.canon_plan(exp), "fail_step": i, "kind": kind, "mode": mode, "stream": stream}
                         ctx.case("faults", case, i > 0 or open_other, mode=mode, kind=kind, stream=stream, step_kind=st["kind"])
                         if rr.timed_out:
+                            hangs += 1
                             ctx.violation("faults", case, f"run with a failing step did not end within {BOUND_S}s (hang)", "timeout", "raise")
                         elif rr.error is None:
                             got = len(rr.yielded) if stream else (len(rr.results) if rr.results is not None else None)
